@@ -710,8 +710,8 @@ func (p c05) supplied(c *core.Ctx) {
 // - are not.
 func (p c05) lazyCandidates(c *core.Ctx) {
 	g := world.NewG(c.Rng)
-	lt := 7 // T07: lazy, Init and AfterPropertiesSet (the palette has pointer slots for types 0..7)
-	sel := g.AddNode(lt, "")          // the unnamed one is preferred
+	lt := 7                  // T07: lazy, Init and AfterPropertiesSet (the palette has pointer slots for types 0..7)
+	sel := g.AddNode(lt, "") // the unnamed one is preferred
 	var others []int
 	for x := 0; x < 1+c.Rng.Intn(3); x++ {
 		others = append(others, g.AddNode(lt, g.FreshName(x+1)))
